@@ -15,8 +15,10 @@ SPEC = dict(
         "SymVerif.C09.poly_identity_complete",
         "SymVerif.C09.poly_identity_sound",
         "SymVerif.C09.poly_identity",
+        "SymVerif.C09.c09_identity_partial",
         "SymVerif.C09.poly_idempotent",
-        "SymVerif.C09.eqb_eq",
+        "SymVerif.C09.eqb_iff",
+        "SymVerif.C09.judgePair_ok",
         "SymVerif.C09.ex_accepts",
         "SymVerif.C09.ex_rejects_unexpanded",
         "SymVerif.C09.ex_rejects_uncombined",
